@@ -16,6 +16,12 @@ module N =
   | N0 -> N0
   | Npos p -> Npos (Coq_xO p)
 
+  (** val succ : coq_N -> coq_N **)
+
+  let succ = function
+  | N0 -> Npos Coq_xH
+  | Npos p -> Npos (Pos.succ p)
+
   (** val add : coq_N -> coq_N -> coq_N **)
 
   let add n m =
